@@ -608,6 +608,10 @@ def handleAcc (t : TextTable) (form da ka db kb same obs : String) : Option Line
     | .sqrt => if o && !(A.dim.all (· % 2 == 0)) then .prop "acc.sqrt.oracle" "a root of non-divisible exponents compiles" else .ok
     | .cbrt => if o && !(A.dim.all (· % 3 == 0)) then .prop "acc.cbrt.oracle" "a root of non-divisible exponents compiles" else .ok
     | .neg => .ok
+    | .satadd | .satsub | .sum =>
+      if differ && o then .prop s!"acc.{form}.oracle" "a program accumulating / saturating-adding different dimensions/kinds compiles"
+      else if A == e.tt && B == e.tt && o then .prop s!"acc.{form}.oracle" "two temperature points can be added/subtracted (saturating / summed)"
+      else .ok
   return ⟨[mo, orc], [s!"acc:{form}:{if o then "compiles" else "rejected"}"], differ⟩
 
 def handleLine (tbl : TextTable) (line : String) : Option LineResult :=
